@@ -6,7 +6,7 @@ sys.path.insert(0, os.path.join(os.path.dirname(os.path.abspath(__file__)), ".."
 import engine_check  # noqa: E402
 import monitors_engine as M  # noqa: E402
 
-LEAN_MODULES = ["KmipModel.Props.C16"]
+LEAN_MODULES = ["KmipModel.Props.C16", "KmipModel.Props.C02Encode", "KmipModel.Props.C01Gen"]
 RULE = ("complete matrices: every dispatched and several undispatched operations x every supported version "
         "(1.0,1.1,1.2,1.3,1.4,2.0) plus unsupported versions (0.9,1.5,2.1,3.0); Query and DiscoverVersions under every "
         "version, each advertised operation then sent under that version; GetAttributeList of fully attributed "
@@ -140,6 +140,15 @@ def run(ctx):
                                          "matrix_complete": True})
     ctx.coverage["evaluations"] += st.items
     ctx.coverage["distinct_nontrivial"] += len(st.distinct)
+    # message fields per version on the wire: every real response against the encoder model M15 and its version-gate
+    # table (encData_no_later_field); the gates of the REQUEST/response structures are the generated schema tables
+    # (C01Gen.gen_no_later_field_emitted / gen_later_field_rejected, exercised by the C01 check)
+    import random
+    import encode_check
+    enc = encode_check.run(ctx, random.Random("c16-encode-%s" % ctx.seed))
+    ctx.coverage["response_fields_per_version"] = {k: enc.get(k) for k in (
+        "compared", "byte_equal", "gating_faults", "differ", "cells_op_version_outcome")}
+    ctx.coverage["evaluations"] += enc.get("compared") or 0
     if divs and not ctx.violations:
         d = divs[0]
         ctx.report("correspondence:engine-model", "model and engine disagree on the version matrix",
@@ -155,4 +164,7 @@ def search(ctx, broken):
 
 
 def replay(ctx, rep):
+    if (rep.get("replay") or {}).get("kind") == "encode":
+        import encode_check
+        return encode_check.replay_case(ctx, rep)
     return engine_check.standard_replay(ctx, rep, MONITORS)
